@@ -188,10 +188,12 @@ type entry struct {
 }
 
 type manifest struct {
-	Text    string
-	Schema  ypos
-	Items   []ypos
-	Entries []entry
+	Text      string
+	Schema    ypos
+	Contents  *ypos // where the sequence node starts (first "-" of a block sequence, "[" of a flow sequence)
+	Items     []ypos
+	Entries   []entry
+	BadSchema string // "" or the way the schema is wrong: one more error is owed
 }
 
 func buildManifest(r *rand.Rand, entries []entry, fancy bool) manifest {
@@ -217,12 +219,34 @@ func buildManifest(r *rand.Rand, entries []entry, fancy bool) manifest {
 				st++
 			}
 		}
+		if fancy && r.Intn(12) == 0 {
+			// a schema fault next to (possibly offending) entries: every fault is owed its own error
+			switch r.Intn(4) {
+			case 0:
+				m.BadSchema = "missing"
+				x.sb.Reset()
+				x.line, x.col = 0, 0
+				return
+			case 1:
+				m.BadSchema = "wrong version"
+				x.put("'1.1'\n")
+			case 2:
+				m.BadSchema = "not a string"
+				x.put("1.2\n")
+			case 3:
+				m.BadSchema = "a list"
+				x.put("['1.2']\n")
+			}
+			return
+		}
 		m.Schema = writeScalar(x, "1.2", st, 0, true)
 		x.put("\n")
 	}
 	writeContents := func() {
 		if flow {
-			x.put("contents: [")
+			x.put("contents: ")
+			m.Contents = &ypos{x.line, x.col}
+			x.put("[")
 			for k, e := range entries {
 				if k > 0 {
 					x.put("," + strings.Repeat(" ", r.Intn(3)))
@@ -246,12 +270,16 @@ func buildManifest(r *rand.Rand, entries []entry, fancy bool) manifest {
 		if fancy {
 			ind = r.Intn(4)
 		}
-		for _, e := range entries {
+		for ei, e := range entries {
 			gap := 1
 			if fancy {
 				gap = 1 + r.Intn(3)
 			}
-			x.put(strings.Repeat(" ", ind) + "-" + strings.Repeat(" ", gap))
+			x.put(strings.Repeat(" ", ind))
+			if ei == 0 {
+				m.Contents = &ypos{x.line, x.col}
+			}
+			x.put("-" + strings.Repeat(" ", gap))
 			if e.Raw != "" {
 				m.Items = append(m.Items, ypos{x.line, x.col})
 				x.put(e.Raw)
@@ -272,10 +300,19 @@ func buildManifest(r *rand.Rand, entries []entry, fancy bool) manifest {
 	}
 	if !fancy || r.Intn(2) == 0 {
 		writeSchema()
+		if m.BadSchema == "missing" {
+			m.Contents, m.Items = nil, nil
+		}
 		writeContents()
 	} else {
 		writeContents()
+		keep := x.sb.String()
+		kl, kc := x.line, x.col
 		writeSchema()
+		if m.BadSchema == "missing" {
+			x.put(keep) // the contents stay, only the schema key is absent
+			x.line, x.col = kl, kc
+		}
 	}
 	m.Text = x.sb.String()
 	return m
@@ -303,9 +340,16 @@ func checkManifest(run *core.Run, m manifest) {
 		c.Ints = append(c.Ints, p.Line, p.Col)
 	}
 	c.Ints = append(c.Ints, m.Schema.Line, m.Schema.Col)
+	c.Extra = map[string]string{"bad_schema": m.BadSchema}
+	if m.Contents != nil {
+		c.Extra["contents"] = fmt.Sprintf("%d,%d", m.Contents.Line, m.Contents.Col)
+	}
 	mf, err := transformer.TransformModFile(m.Text)
 	run.Eval(1)
 	minRej, maxRej := 0, 0
+	if m.BadSchema != "" {
+		minRej, maxRej = 1, 1
+	}
 	for _, e := range m.Entries {
 		switch e.Class {
 		case "reject":
@@ -372,6 +416,9 @@ func checkManifest(run *core.Run, m manifest) {
 			run.Count("positions_checked", 1)
 		}
 	}
+	if m.Contents != nil && (mf.Contents.Line != m.Contents.Line || mf.Contents.Column != m.Contents.Col) {
+		run.Violation("contents-position-wrong", c, fmt.Sprintf("line %d column %d", m.Contents.Line, m.Contents.Col), fmt.Sprintf("line %d column %d -> %q", mf.Contents.Line, mf.Contents.Column, clipStr(runeAt(m.Text, mf.Contents.Line, mf.Contents.Column), 40)))
+	}
 	if len(m.Items) > 0 && (mf.Schema.Line != m.Schema.Line || mf.Schema.Column != m.Schema.Col) {
 		run.Violation("schema-position-wrong", c, fmt.Sprintf("line %d column %d", m.Schema.Line, m.Schema.Col), fmt.Sprintf("line %d column %d", mf.Schema.Line, mf.Schema.Column))
 	}
@@ -412,7 +459,7 @@ func runC15(run *core.Run) {
 				carrier = "'" + w + "'"
 			}
 			text := "schema: '1.2'\ncontents:\n  - " + carrier + "\n"
-			checkManifest(run, manifest{Text: text, Schema: ypos{0, 8}, Items: []ypos{{2, 4}}, Entries: []entry{{Written: w, Class: classifyEntry(w)}}})
+			checkManifest(run, manifest{Text: text, Schema: ypos{0, 8}, Contents: &ypos{2, 2}, Items: []ypos{{2, 4}}, Entries: []entry{{Written: w, Class: classifyEntry(w)}}})
 		}
 	})
 	run.Count("exhaustive_strings", int64(total))
@@ -477,6 +524,12 @@ func replayC15(run *core.Run, c *core.Case) {
 	}
 	if len(c.Ints) >= 2 {
 		m.Schema = ypos{c.Ints[len(c.Ints)-2], c.Ints[len(c.Ints)-1]}
+	}
+	m.BadSchema = c.Extra["bad_schema"]
+	if s := c.Extra["contents"]; s != "" {
+		p := ypos{}
+		fmt.Sscanf(s, "%d,%d", &p.Line, &p.Col)
+		m.Contents = &p
 	}
 	checkManifest(run, m)
 }
